@@ -1,129 +1,13 @@
 import Driver.ReadCheck
+import SaModel.Spec.TouchRange
 /-
-`touchOK t a i` — C17's "never returns bytes or elements from outside the ranges the view itself designates",
-as a predicate on (target type, view, slot) that is independent of the reader model: every slot a SUCCESSFUL read
-of target `t` at slot `i` of `a` has to visit lies below the length of the array it belongs to (rows below the
-declared length, list / map / fixed-size elements and union / dictionary references below the child's length).
-
-It follows only what the target reads (a struct target visits the fields it names, a tuple the leading fields, an
-`Option` / `any` target stops at a null slot), it does not look at validity-bitmap sizes, UTF-8 or view descriptors
-(those are decided by `Spec.decodeAt`), and it accepts an empty element range wherever it lies (recorded known
-finding `C17-empty-range-beyond-child`).  Used by the `corrupt` suite for reads that return `Ok` although
-`Spec.decodeAt` rejects the slot: if `touchOK` is false the result can only have been assembled from outside the
-designated ranges, whatever the uncorrupted view would have given.
+`touchOK` — the run-time specification ingredient of the `corrupt` suite (C17): every slot a successful read of
+target `t` at slot `i` of `a` has to visit lies below the length of the array it belongs to.  The definition is
+the total model function `SaModel.Spec.touchOK` (lean/SaModel/Spec/TouchRange.lean), the one
+`SaModel.Props.C17.readAs_touch_in_range` is about; this file only re-exports it for the driver.
 -/
 namespace Driver
-open SaModel SaModel.Read SaModel.Spec
 
-def validityOf : Arr → Option Bits
-  | .boolean _ v _ | .prim _ v _ | .time _ _ v _ | .timestamp _ _ v _ | .decimal128 _ _ v _ => v
-  | .bytes _ v _ _ | .bytesView _ v _ _ | .fixedSizeBinary _ v _ => v
-  | .struct _ v _ | .list _ v _ _ _ | .fixedSizeList _ v _ _ _ | .map v _ _ _ _ => v
-  | _ => none
-
-/-- the bitmap marks slot `i` as null (an unreadable bitmap position counts as "not null": the read fails there) -/
-def slotNull (a : Arr) (i : Nat) : Bool :=
-  match a with
-  | .null _ => true
-  | .dictionary ks _ => (match isValid (validityOf ks) i with | .ok b => !b | .error _ => false)
-  | a => (match isValid (validityOf a) i with | .ok b => !b | .error _ => false)
-
-def stopsAtNull : Target → Bool
-  | .any | .ignored | .option _ => true
-  | _ => false
-
-def tfieldNamed : TFields → String → Option Target
-  | .nil, _ => none
-  | .cons n t r, name => if n == name then some t else tfieldNamed r name
-
-def targetsNth : Targets → Nat → Option Target
-  | .nil, _ => none
-  | .cons t _, 0 => some t
-  | .cons _ r, k + 1 => targetsNth r k
-
-def variantNamed : TVariants → String → Option VKind
-  | .nil, _ => none
-  | .cons n k r, name => if n == name then some k else variantNamed r name
-
-def variantNth : TVariants → Nat → Option VKind
-  | .nil, _ => none
-  | .cons _ k _, 0 => some k
-  | .cons _ _ r, i + 1 => variantNth r i
-
-/-- target of the elements of a list-like column -/
-def elemTarget (t : Target) (k : Nat) : Target :=
-  match t with
-  | .seq e => e
-  | .tuple ts | .tupleStruct ts => (targetsNth ts k).getD .ignored
-  | .any | .ignored => t
-  | _ => .any
-
-partial def touchOK : Target → Arr → Nat → Bool
-  | .newtype t, a, i => touchOK t a i
-  | t, a, i =>
-    if i ≥ lenOf a then false
-    else if stopsAtNull t && slotNull a i then true
-    else
-      let t := match t with | .option t' => t' | t => t
-      match t with
-      | .newtype t' => touchOK t' a i     -- `Option<Newtype<T>>`
-      | .option _ => touchOK t a i
-      | t =>
-      let range (el : Arr) (s e : Int) (tgt : Nat → Target) : Bool :=
-        if s == e then true
-        else if 0 ≤ s ∧ s ≤ e ∧ e ≤ (lenOf el : Int) then
-          (List.range (e.toNat - s.toNat)).all fun k => touchOK (tgt k) el (s.toNat + k)
-        else false
-      match a with
-      | .struct _ _ fs =>
-        (match t with
-         | .struct tfs => fs.toList.all fun (fm, c) => match tfieldNamed tfs fm.name with | some tt => touchOK tt c i | none => true
-         | .tuple ts | .tupleStruct ts =>
-           (fs.toList.zip (List.range fs.toList.length)).all fun ((_, c), k) =>
-             match targetsNth ts k with | some tt => touchOK tt c i | none => true
-         | .map _ v => fs.toList.all fun (_, c) => touchOK v c i
-         | .any | .ignored => fs.toList.all fun (_, c) => touchOK t c i
-         | _ => true)
-      | .list _ _ offs _ el =>
-        if i + 1 < offs.length then range el (offs.getD i 0) (offs.getD (i + 1) 0) (elemTarget t) else false
-      | .fixedSizeList _ _ n _ el =>
-        if n < 0 then false else range el (i * n) ((i + 1) * n) (elemTarget t)
-      | .map _ offs _ ks vs =>
-        if i + 1 < offs.length then
-          let (kt, vt) := match t with | .map k v => (k, v) | .any | .ignored => (t, t) | _ => (.any, .any)
-          range ks (offs.getD i 0) (offs.getD (i + 1) 0) (fun _ => kt) &&
-          range vs (offs.getD i 0) (offs.getD (i + 1) 0) (fun _ => vt)
-        else false
-      | .dictionary ks vs =>
-        (match decodeAt ks i with
-         | .ok (.int j) => 0 ≤ j && j.toNat < lenOf vs
-         | _ => true)
-      | .union types offs fs =>
-        let tid := types.getD i 0
-        (match indexOfTypeId (ArrUFields.ids fs) tid with
-         | none => true            -- the read fails (or the column is not readable): nothing is returned
-         | some pos =>
-           match ArrUFields.child? fs pos, fs.toList[pos]? with
-           | some child, some (_, fm, _) =>
-             let j : Option Nat := match offs with
-               | some o => if i < o.length ∧ 0 ≤ o.getD i (-1) then some (o.getD i 0).toNat else none
-               | none => some i
-             (match j with
-              | none => false
-              | some j =>
-                let vt : Target := match t with
-                  | .enum byIndex vs =>
-                    (match (if byIndex then variantNth vs pos else variantNamed vs fm.name) with
-                     | some (.newtype tt) => tt
-                     | some (.tuple ts) => .tuple ts
-                     | some (.struct tfs) => .struct tfs
-                     | some .unit => .ignored
-                     | none => .ignored)
-                  | .any | .ignored => t
-                  | _ => .any
-                -- a unit variant / unknown variant still calls into the child reader at `j`
-                if j ≥ lenOf child then false else touchOK vt child j)
-           | _, _ => true)
-      | _ => true
+export SaModel.Spec (touchOK)
 
 end Driver
